@@ -85,7 +85,7 @@ TEXTS = {
                 "categories ascending, build_with_defaults errs iff a root is missing; root ids regenerated from the source; for every "
                 "Builder-built ontology 'ancestors' is the transitive closure of the is_a links (C19_builder_is_modifier, "
                 "C19_builder_categories). Tied to the crate "
-                "by correspondence and by evaluating spec_C19 on the crate's observations. The same for EVERY ontology with exact caches (C19_is_modifier_exact_caches, C19_categories_exact_caches): JAX loads, sub-ontologies and accepted binary files are such.",
+                "by correspondence and by evaluating spec_C19 on the crate's observations. The same for EVERY ontology with exact caches (C19_is_modifier_exact_caches, C19_categories_exact_caches): JAX loads, sub-ontologies and accepted binary files are such. SOUNDNESS OF THE STATEMENT (C19_accepted_observation_means): what defaults_ok accepts is exactly the documented default sets and per-term classification. A third of the C19 worlds replace both groups through categories_mut / modifier_mut: is_modifier / categories must follow whatever groups are set.",
         "design_ref": "DESIGN.md §4 C19", "note": NOTE_COMMON, "technique": TECH,
     },
     "C04": {
@@ -111,7 +111,7 @@ TEXTS = {
                 "GroupSimilarity builds the |A| x |B| row-major matrix; the caching adaptor is transparent for every similarity and every "
                 "reachable cache state (invariant proof over the query sequence); with a symmetric similarity the result is order-independent "
                 "in every number structure with commutative + and max. Tied to the crate bit for bit (Flocq binary32) on generated matrices, "
-                "set pairs, asymmetric table-driven similarities and cached query sequences, incl. the log of inner similarity calls.",
+                "set pairs, asymmetric table-driven similarities and cached query sequences, incl. the log of inner similarity calls. A second cached adaptor around another similarity is alive at the same time and used alternately on the same queries (adaptors must not share their memo).",
         "design_ref": "DESIGN.md §4 C05",
         "note": NOTE_COMMON + "Axioms: the four standard-library axioms behind Coq Reals (via Flocq's binary32 definitions). Commutativity of binary32 + is a hypothesis of the symmetry theorem (not proved for Flocq here); the check compares (A,B) with (B,A) bit for bit instead.",
         "technique": TECH,
@@ -209,7 +209,7 @@ TEXTS = {
                 "generated ontology, and by evaluating spec_C10 (incl. the name lookups) on the crate's observation. Sub-check C10m does the "
                 "same sweep on an ontology of more than 65 536 terms (beyond a 16-bit slot index), which the model builds through block forms "
                 "proved equal to the call-by-call Builder transcription (C10_many_terms_block_is_calls, C10_connect_without_links, "
-                "C10_many_terms_script). RECORD LOOKUPS (C10_record_by_id, C10_gene_by_symbol, C10_disease_name_search_exact, C10_first_disease_by_name, C10_contains_is_infix): lookup by id returns the record with that id or nothing exists; gene_by_name a gene with exactly that symbol or none exists; the name search exactly the diseases whose name contains the query as a byte string.",
+                "C10_many_terms_script). RECORD LOOKUPS (C10_record_by_id, C10_gene_by_symbol, C10_disease_name_search_exact, C10_first_disease_by_name, C10_contains_is_infix): lookup by id returns the record with that id or nothing exists; gene_by_name a gene with exactly that symbol or none exists; the name search exactly the diseases whose name contains the query as a byte string. SOUNDNESS OF THE STATEMENT (C10_accepted_observation_means): an accepted observation says: every answer carries the asked id inside the id space, answered ids strictly ascending, iteration = those ids, len() their number, and for a Builder script an id is answered iff a new_term call supplied it, with the name of the FIRST such call (a third of the scripts supply an id twice). HpoTerm::try_new is swept alongside Ontology::hpo and must agree.",
         "design_ref": "DESIGN.md §4 C10", "note": NOTE_COMMON + "str::contains modelled as byte-level infix.", "technique": TECH,
     },
     "C11": {
@@ -236,7 +236,7 @@ TEXTS = {
                 "OMIM / ORPHA ids of a set are the union over its members (a sorted set), category counts count the members per category, the "
                 "aggregated information content is calculate(records, size of the union) for genes and OMIM. spec_C13 "
                 "states child_nodes, modifier filter, unions of annotation ids, category counts and aggregated IC against the observation and "
-                "is evaluated on the crate's observation of every generated set; model and crate are diffed. TOTALITY (C13_operations_return): on a set whose members are terms of the ontology every operation returns.",
+                "is evaluated on the crate's observation of every generated set; model and crate are diffed. TOTALITY (C13_operations_return): on a set whose members are terms of the ontology every operation returns. SOUNDNESS OF THE STATEMENT (C13_accepted_observation_means): an observation accepted by spec_C13 says, set by set, exactly the clauses of the property (child_nodes = members no member descends from; filters keep the unflagged members; replacement; unions; in place = copying). The check also changes each set in place AFTER its aggregates were asked for once and asks again (they must be those of the members it has now), and a quarter of the worlds carry user-chosen category / modifier groups (categories_mut / modifier_mut).",
         "design_ref": "DESIGN.md §4 C13", "note": NOTE_COMMON, "technique": TECH,
     },
     "C14": {
@@ -253,7 +253,7 @@ TEXTS = {
                 "direct terms that are retained; the result is acyclic and every one of its terms carries exactly the kept records with a "
                 "retained direct term at the term or below it (the C02 statement holds again in the result). spec_C14 states retained set, induced links, copied names/flags, "
                 "preserved distances, refusal iff a leaf is outside the subtree, the annotation filter, and re-runs the executable statements "
-                "of C01-C03 on the result, evaluated on the crate's observation; the transcription is diffed against the crate. LEAF DISTANCE (C14_model_leaf_distance_kept): every leaf reaches root in the result by a chain whose length is the shortest distance in the source, and no chain of the result is shorter; C14_model_contains_leaves_and_root. C14_model_acceptance: the call is refused only then (the retained set is computed whenever every leaf is root or below it); C14_model_leaf_collection_is_a_set: order and multiplicity of the leaves are irrelevant. C14_model_sub_ontology_returns: the whole call returns for an acyclic source with exact caches when every leaf is a stored term that is root or below it (and the IC function is defined on counts up to the source's).",
+                "of C01-C03 on the result, evaluated on the crate's observation; the transcription is diffed against the crate. LEAF DISTANCE (C14_model_leaf_distance_kept): every leaf reaches root in the result by a chain whose length is the shortest distance in the source, and no chain of the result is shorter; C14_model_contains_leaves_and_root. C14_model_acceptance: the call is refused only then (the retained set is computed whenever every leaf is root or below it); C14_model_leaf_collection_is_a_set: order and multiplicity of the leaves are irrelevant. C14_model_sub_ontology_returns: the whole call returns for an acyclic source with exact caches when every leaf is a stored term that is root or below it (and the IC function is defined on counts up to the source's). NAMES AND FLAGS (C14_model_names_and_flags_copied): every term of the result carries name, obsolete flag and replacement of the source term with that id. A quarter of the source worlds carry user-chosen modifier groups, a sixth names beyond the 255-byte limit of the binary record.",
         "design_ref": "DESIGN.md §4 C14, §9", "note": NOTE_COMMON, "technique": TECH,
     },
     "C17": {
@@ -272,7 +272,7 @@ TEXTS = {
                 "between that union and the node's set (set_to_last yields the new set paired with every live set, in order); "
                 "C17_initial_matrix: the run starts from the user's distance of every pair of input sets (each pair asked once: "
                 "C17_initial_pairs_each_once). The replay additionally checks per merge that no live pair is closer, the reported distance, and the "
-                "method-specific update (min / max / mean / user distance on the union); the transcription is diffed bit for bit. THE MODEL'S RUN RETURNS A DENDROGRAM (C17_run_returns_a_dendrogram, every number type / distance / method): n-1 merges, merge k has lhs < rhs < n+k and size = sum of its parts, every node 0..2n-3 is merged exactly once, the last merge has size n, indicies is a permutation of 0..n-1. TOTALITY (C17_clustering_returns): all four methods return on every non-empty list of sets, for every number type and distance function (no expect() of linkage.rs panics, the Combinations iterator ends within its fuel) — so clustering n sets YIELDS exactly n-1 merges forming a dendrogram.",
+                "method-specific update (min / max / mean / user distance on the union); the transcription is diffed bit for bit. THE MODEL'S RUN RETURNS A DENDROGRAM (C17_run_returns_a_dendrogram, every number type / distance / method): n-1 merges, merge k has lhs < rhs < n+k and size = sum of its parts, every node 0..2n-3 is merged exactly once, the last merge has size n, indicies is a permutation of 0..n-1. TOTALITY (C17_clustering_returns): all four methods return on every non-empty list of sets, for every number type and distance function (no expect() of linkage.rs panics, the Combinations iterator ends within its fuel) — so clustering n sets YIELDS exactly n-1 merges forming a dendrogram. A fifth of the one-term-set cases carry one infinite user distance (merged last, no ties).",
         "design_ref": "DESIGN.md §4 C17, §9",
         "note": NOTE_COMMON + "Axioms: the four standard-library axioms behind Coq Reals (via Flocq's binary32 in the replay's distance type). HashMap order: on a tie the crate may merge another minimal pair than the model; such runs are decided by the replay only.",
         "technique": TECH,
